@@ -26,6 +26,7 @@ import LdkModel.Model.TlvProbe
     bigenc <n>             BigSize.encode
     tlvp <hex>             tlvProbeSchema (Model/TlvProbe.lean: required TLVs 2, 6; optional 3, 9) over a bare TLV stream;
                            `ok <a> <b|-> <c> <d|->` / `err ..`
+    tlvpe <a> <b|-> <c> <d|->  encodeTlvs over tlvProbeSchema (also through TlvSrc.encodeTlvStreamSrc, the translated `encode_tlv_stream!`); hex
     every Schema decode (ops dec, tlvp) is ALSO run through TlvSrc.schemaDecodeSrc, the reader built from the decisions translated from
     util/ser_macros.rs / util/ser.rs (Generated/TlvLoop.lean, proved equal: Props/C13Tlv tlv_loop_is_source); ` src-differs` is appended
     when the two disagree -/
@@ -175,6 +176,11 @@ def c13 : Drv where
       | .ok (n, r) => ((), s!"ok {n} " ++ hex r)
       | .error e => ((), "err " ++ e.name)
     | ["bigenc", n] => ((), hex (BigSize.encode (nat! n)))
+    | ["tlvpe", a, b, c, d] =>
+      let o := fun (x : String) => if x == "-" then none else some (Val.nat (nat! x))
+      let vals := [o a, o b, o c, o d]
+      let e := encodeTlvs tlvProbeSchema.tlvs vals
+      ((), hex e ++ (if TlvSrc.encodeTlvStreamSrc tlvProbeSchema.tlvs vals == e then "" else " src-differs"))
     | ["tlvp", h] =>
       match schemaDec tlvProbeSchema (unhex h) with
       | (.ok v, d) => ((), "ok " ++ " ".intercalate (v.tlvs.map fun o => match o with | some (.nat n) => toString n | _ => "-") ++ d)
